@@ -282,6 +282,9 @@ def check(ctx: Ctx):
     c03._guarded(ctx, "R15.6", c15.check_state_writers)
     c03._guarded(ctx, "R05.5", c05.check_stateless)
     c03._guarded(ctx, "R15.7", c15.check_globals)
+    # the lists that fix the layout of rows and tables (group names, metric keys) are not handed to functions
+    # that modify their list parameter in place (R15.6, through callees)
+    c03._guarded(ctx, "R15.6", c15.check_state_through_callees)
     # "exactly one row for every distinct subject name, also when it is submitted more than once": a name that
     # was claimed or finished must be recognised when the files are read back, whatever characters it has (R17.8)
     from . import c17
